@@ -105,7 +105,7 @@ def _jobs(ctx, tag, total, model):
 def _run(ctx, model=True):
     key = (ctx.tier, ctx.seed, model)
     if key not in _CACHE:
-        total = ctx.pick(14000, 170000)
+        total = ctx.pick(26000, 200000)
         _CACHE[key] = L.run_jobs(L.eval_docs, _jobs(ctx, 'doc', total, model))
     return _CACHE[key]
 
@@ -149,7 +149,7 @@ def oracle(ctx, seeds, scale):
                     r.fail(key, what, input=s)
     res = list(_run(ctx, True) if (ctx.tier, ctx.seed, True) in _CACHE else _run(ctx, False))
     if scale > 1:
-        extra = ctx.pick(14000, 170000) * (scale - 1) // 2
+        extra = ctx.pick(26000, 200000) * (scale - 1) // 2
         res += L.run_jobs(L.eval_docs, _jobs(ctx, 'more', extra, False))
     st = L.merge_jobs(res, None, r)
     st.into(r)
